@@ -513,6 +513,37 @@ def case_dual(ctx, cfg):
         if e is not None or not proj_eq(d3.array, np.linalg.inv(Q3.array), 1e-8):
             ctx.fail("dual:after-queries:copy-with-new-array", "dual", inputs, np.linalg.inv(Q3.array), e if e is not None else d3.array)
             return
+    elif form == "QuadricCollection":
+        # members, slices and iteration of the dual collection are the duals of the members: same flag, same matrix,
+        # and dual is an involution on them too
+        mats_ = np.asarray(Q.array)
+        members = [("d[0]", lambda: d[0], 0), ("d[-1]", lambda: d[-1], len(mats_) - 1), ("next(iter(d))", lambda: next(iter(d)), 0), ("list(d)[1]", lambda: list(d)[1], 1)]
+        for label, get, i in members:
+            m, e = ctx.call(get)
+            ctx.trace()
+            bad = None
+            if e is not None:
+                bad = type(e).__name__
+            elif not isinstance(m, G.Quadric) or not bool(m.is_dual):
+                bad = "not-a-dual-quadric"
+            elif not proj_eq(m.array, np.linalg.inv(mats_[i]), 1e-8):
+                bad = "matrix"
+            else:
+                back, e2 = ctx.call(lambda: m.dual)
+                if e2 is not None or bool(back.is_dual) or not proj_eq(back.array, mats_[i], 1e-8):
+                    bad = "dual-of-member"
+            if bad:
+                ctx.fail(f"dual:collection-member:{bad}", label, inputs, "the dual of the member", e if e is not None else m)
+                return
+        sl, e = ctx.call(lambda: d[1:])
+        ctx.trace()
+        if e is not None or not bool(sl.is_dual) or sl.array.shape != mats_[1:].shape or not all(proj_eq(x, np.linalg.inv(y), 1e-8) for x, y in zip(sl.array, mats_[1:])):
+            ctx.fail("dual:collection-slice", "dual[1:]", inputs, "dual quadrics of the slice", e if e is not None else sl)
+            return
+        back, e = ctx.call(lambda: sl.dual)
+        if e is not None or bool(back.is_dual) or not all(proj_eq(x, y, 1e-8) for x, y in zip(back.array, mats_[1:])):
+            ctx.fail("dual:collection-slice:involution", "dual[1:].dual", inputs, mats_[1:], e if e is not None else back.array)
+            return
     elif form == "class":
         # known tangent and non-tangent hyperplanes of the class objects
         tests = {
